@@ -64,16 +64,16 @@ static int run_array(ygm::comm& world, int argc, char** argv) {
     arr_t& t = *a[cur];
     if (c == 'B') { world.barrier(); continue; }
     if (c == 'T') { cur = (int)U(f[1]); continue; }
-    if (c == 'C') { a[1].reset(new arr_t(*a[0])); continue; }
+    if (c == 'C') { a[1].reset(new arr_t(*a[0])); world.barrier(); continue; }
     if (c == 'F') {
       std::ostringstream o; o << "forall";
       t.for_all([&o](const size_t idx, u64& v) { o << " " << idx << ":" << v; });
-      hc::out(o.str()); continue;
+      hc::out(o.str()); world.barrier(); continue;   // a rank still inside for_all's barrier would execute the next phase's updates
     }
     if (c == 'V') {
       std::ostringstream o; o << "values";
       t.for_all([&o](u64& v) { o << " " << v; });
-      hc::out(o.str()); continue;
+      hc::out(o.str()); world.barrier(); continue;
     }
     if (c == 'z') { hc::out("size " + std::to_string(t.size())); continue; }
     if ((int)U(f[1]) != me) continue;
@@ -116,9 +116,10 @@ static int run_bag(ygm::comm& world, int argc, char** argv) {
         std::vector<u64> it; t.local_for_all([&it](u64& x) { it.push_back(x); });
         hc::out(join("bag", it.begin(), it.end()));
         hc::out("lsize " + std::to_string(t.local_size()));
+        world.barrier();   // keep the next phase's inserts out of a slower rank's dump
       } break;
       case 'R': hc::out("rebalance-begin"); t.rebalance(); hc::out("rebalance-end"); break;
-      case 'L': { urbg r(U(f[1]) * 1000003ULL + me); t.local_shuffle(r); } break;
+      case 'L': { urbg r(U(f[1]) * 1000003ULL + me); t.local_shuffle(r); world.barrier(); } break;
       case 'G': {
         // what std::uniform_int_distribution<>(0, size-1) yields for this generator, item by item
         urbg r(U(f[1]) * 1000003ULL + me), r2 = r;
@@ -127,11 +128,11 @@ static int run_bag(ygm::comm& world, int argc, char** argv) {
         hc::out(join("gdest", d.begin(), d.end()));
         t.global_shuffle(r);
       } break;
-      case 'S': b0.swap(b1); break;
-      case 'g': { auto v = t.gather_to_vector((int)U(f[1])); hc::out(join("gather", v.begin(), v.end())); } break;
-      case 'a': { auto v = t.gather_to_vector(); hc::out(join("gatherall", v.begin(), v.end())); } break;
-      case 'z': hc::out("size " + std::to_string(t.size())); break;
-      case 'c': t.clear(); break;
+      case 'S': b0.swap(b1); world.barrier(); break;
+      case 'g': { auto v = t.gather_to_vector((int)U(f[1])); hc::out(join("gather", v.begin(), v.end())); world.barrier(); } break;
+      case 'a': { auto v = t.gather_to_vector(); hc::out(join("gatherall", v.begin(), v.end())); world.barrier(); } break;
+      case 'z': hc::out("size " + std::to_string(t.size())); world.barrier(); break;
+      case 'c': t.clear(); world.barrier(); break;
       case 'i': if ((int)U(f[1]) == me) t.async_insert(U(f[2])); break;
       case 't': if ((int)U(f[1]) == me) t.async_insert(U(f[2]), (int)U(f[3])); break;
       case 'v': if ((int)U(f[1]) == me) t.async_insert(list(f[3]), (int)U(f[2])); break;
@@ -160,7 +161,7 @@ static int run_tbag(ygm::comm& world, int argc, char** argv) {
         std::sort(it.begin(), it.end());
         std::ostringstream o; o << "tbag";
         for (auto& p : it) o << " " << p.first << ":" << p.second << ":" << tb.owner(p.first);
-        hc::out(o.str());
+        hc::out(o.str()); world.barrier();
         // (tagged_bag::local_size/local_erase/local_clear do not compile in this tree: they reach into map's private impl)
       } break;
       case 'g': {
@@ -168,9 +169,9 @@ static int run_tbag(ygm::comm& world, int argc, char** argv) {
         auto m = tb.all_gather(tg);
         std::ostringstream o; o << "allgather";
         for (auto& p : m) o << " " << p.first << ":" << p.second;
-        hc::out(o.str());
+        hc::out(o.str()); world.barrier();
       } break;
-      case 'z': hc::out("size " + std::to_string(tb.size())); break;
+      case 'z': hc::out("size " + std::to_string(tb.size())); world.barrier(); break;
       default: hc::out(std::string("bad-op ") + c);
     }
   }
